@@ -25,6 +25,49 @@ Theorem C15_sd_refines : forall ks vs ops,
 Proof. exact sd_refines. Qed.
 Print Assumptions C15_sd_refines.
 
+(* the same from any state built by the constructor (MultiKeyDict(dict)), including the view before
+   the first operation; histories contain rejected assignments (OSetBad) and lookups (OObs) *)
+Theorem C15_mkd_refines_from : forall ks vs init ops,
+  Forall op_ok init -> Forall op_ok ops ->
+  view_ok (mview ks vs (mstate_after init) false) (aview false ks vs (aspec_after false init) false) /\
+  Forall2 view_ok (mrun ks vs (mstate_after init) ops) (arun false ks vs (aspec_after false init) ops).
+Proof. exact mkd_refines_from. Qed.
+Print Assumptions C15_mkd_refines_from.
+
+Theorem C15_sd_refines_from : forall ks vs init ops,
+  Forall op_ok init -> Forall op_ok ops ->
+  view_ok (sview ks vs (sstate_after init) false) (aview true ks vs (aspec_after true init) false) /\
+  Forall2 view_ok (srun ks vs (sstate_after init) ops) (arun true ks vs (aspec_after true init) ops).
+Proof. exact sd_refines_from. Qed.
+Print Assumptions C15_sd_refines_from.
+
+(* lookups write nothing (model of the implementation and specification) *)
+Theorem C15_observation_pure : forall d s a st q,
+  fst (mstep d (OObs q)) = d /\ fst (sstep s (OObs q)) = s /\ fst (astep st a (OObs q)) = a.
+Proof. exact observation_pure. Qed.
+Print Assumptions C15_observation_pure.
+
+(* an assignment rejected with TypeError is the identity step of a MultiKeyDict *)
+Theorem C15_mkd_rejected_set_identity : forall d a kt,
+  mstep d (OSetBad kt) = (d, true) /\ astep false a (OSetBad kt) = (a, true).
+Proof. exact mkd_rejected_set_identity. Qed.
+Print Assumptions C15_mkd_rejected_set_identity.
+
+(* a StrategyDict has released the names of the rejected assignment, and only those *)
+Theorem C15_sd_rejected_set_unnames : forall a kt k, WF a ->
+  let a' := fst (astep true a (OSetBad kt)) in
+  snd (astep true a (OSetBad kt)) = true /\
+  (In k kt -> aval a' k = None) /\ (~ In k kt -> aval a' k = aval a k).
+Proof. exact sd_rejected_set_unnames. Qed.
+Print Assumptions C15_sd_rejected_set_unnames.
+
+(* read-only steps of the model show the same state (the check pure_ok demands it of the implementation) *)
+Theorem C15_model_readonly_steps : forall ks vs d o e,
+  readonly false o = true ->
+  same_state (mview ks vs d e) (mview ks vs (fst (mstep d o)) (snd (mstep d o))) = true.
+Proof. exact model_readonly_steps. Qed.
+Print Assumptions C15_model_readonly_steps.
+
 (* the hypothesis cannot be dropped: d[()] = v stores a value without any name *)
 Theorem C15_mkd_empty_tuple_counterexample :
   view_okb (hd (mview [] [] empty false) (mrun [0] [0] empty [OSet [] 0]))
@@ -146,3 +189,29 @@ Proof.
   split; vm_compute; reflexivity.
 Qed.
 Print Assumptions C15_nonvacuous.
+
+(* non-vacuity of the round-2 statements: a rejected assignment, lookups (one raising), the constructor *)
+Example C15_nonvacuous_round2 :
+  let ks := [1; 2] in
+  let vs := [7; 8] in
+  let init := [OSet [1] 7; OSet [2] 7] in
+  let ops := [OSetBad [1]; OObs (QGet 3); OObs (QV2K 8); ODel 1; OObs (QK2K 1); OObs QBad] in
+  let v12 := VIEW false [Some 7; Some 7] [Some [1; 2]; Some [1; 2]] [[1; 2]; []] 1 [[1; 2]] [7] [] None in
+  let v2 e := VIEW e [None; Some 7] [None; Some [2]] [[2]; []] 1 [[2]] [7] [] None in
+  let r e v := VIEW e (v_get v) (v_k2k v) (v_v2k v) (v_len v) (v_keys v) (v_iter v) (v_attr v) (v_default v) in
+  Forall op_ok init /\ Forall op_ok ops /\
+  mview ks vs (mstate_after init) false = v12 /\
+  mrun ks vs (mstate_after init) ops = [r true v12; r true v12; v12; v2 false; v2 true; v2 true] /\
+  arun false ks vs (aspec_after false init) ops = [r true v12; r true v12; v12; v2 false; v2 true; v2 true] /\
+  (* StrategyDict: the rejected assignment released name 1; rejecting [2] as well drops the default *)
+  map v_get (srun ks vs (sstate_after init) [OSetBad [1]; OSetBad [2]]) = [[None; Some 7]; [None; None]] /\
+  map v_default (srun ks vs (sstate_after init) [OSetBad [1]; OSetBad [2]]) = [Some 7; None] /\
+  map v_default (arun true ks vs (aspec_after true init) [OSetBad [1]; OSetBad [2]]) = [Some 7; None] /\
+  WF (aspec_after true init).
+Proof.
+  cbv zeta. split; [repeat constructor; discriminate|]. split; [repeat constructor|].
+  split; [vm_compute; reflexivity|]. split; [vm_compute; reflexivity|]. split; [vm_compute; reflexivity|].
+  split; [vm_compute; reflexivity|]. split; [vm_compute; reflexivity|]. split; [vm_compute; reflexivity|].
+  apply (WF_after true).
+Qed.
+Print Assumptions C15_nonvacuous_round2.
